@@ -50,10 +50,16 @@ type receiver struct {
 
 // 初始化接收器
 func newReceiver(ep *endpoint, irs seqnum.Value, rcvWnd seqnum.Size, rcvWndScale uint8) *receiver {
+	// The initial right edge is what the 16-bit window field of the handshake
+	// could tell the peer, see getSendParams.
+	acc := rcvWnd
+	if max := seqnum.Size(0xffff) << rcvWndScale; acc > max {
+		acc = max
+	}
 	return &receiver{
 		ep:             ep,
 		rcvNxt:         irs + 1,
-		rcvAcc:         irs.Add(rcvWnd + 1),
+		rcvAcc:         irs.Add(acc + 1),
 		rcvWndScale:    rcvWndScale,
 		pendingBufSize: rcvWnd,
 	}
@@ -79,6 +85,12 @@ func (r *receiver) acceptable(segSeq seqnum.Value, segLen seqnum.Size) bool {
 func (r *receiver) getSendParams() (rcvNxt seqnum.Value, rcvWnd seqnum.Size) {
 	// Calculate the window size based on the current buffer size.
 	n := r.ep.receiveBufferAvailable()
+	// Never accept more than the 16-bit window field can advertise (after
+	// scaling): the right edge promised to the peer and the right edge
+	// enforced by acceptable() must be the same.
+	if max := 0xffff << r.rcvWndScale; n > max {
+		n = max
+	}
 	acc := r.rcvNxt.Add(seqnum.Size(n))
 	if r.rcvAcc.LessThan(acc) {
 		r.rcvAcc = acc
